@@ -235,12 +235,18 @@ func rdReplay(raw json.RawMessage, idx int, tr *traceWriter) {
 	if c.Outer == 2 {
 		f.Use(flamego.Renderer(flamego.RenderOptions{Charset: "outer-" + c.Cs, JSONIndent: c.Indent + " ", XMLIndent: c.Ind2 + "  "}))
 	}
+	// the options are handed over in a slice of the caller's own, which the caller re-uses afterwards for another
+	// instance: a middleware is configured by what its options were at the time of the call
+	optSlice := []flamego.RenderOptions{opt}
+	renderer := flamego.Renderer(optSlice...)
+	optSlice[0] = flamego.RenderOptions{Charset: "reused", JSONIndent: "\t\t\t", XMLIndent: "\t\t\t"}
+	_ = flamego.Renderer(optSlice...)
 	if c.Pos == "after" {
-		f.Use(flamego.Renderer(opt), pad)
+		f.Use(renderer, pad)
 		f.Get("/sub", func(r flamego.Render) { r.PlainText(203, "sub-request") })
 		f.Routes("/", "GET,HEAD", pad, user)
 	} else {
-		f.Use(user, flamego.Renderer(opt))
+		f.Use(user, renderer)
 		f.Routes("/", "GET,HEAD", pad)
 	}
 	if c.HeadFirst == 2 {
